@@ -263,6 +263,8 @@ type gen struct {
 	noCLI    bool
 	names    map[string]int // helper names used
 	inReduce int
+	redefine  bool            // funcName may hand out the name of a built-in helper
+	redefined map[string]bool // built-in names the generated funcs file defines
 }
 
 func newGen(r *run.Rand) *gen {
